@@ -382,6 +382,20 @@ public:
     {
         invariants();
 
+        if (isOwnElement(theData))
+        {
+            // The value lives in this vector.  The elements are
+            // shifted, or the storage is reallocated, before it
+            // would be read, so insert a copy of it instead.
+            // thePosition is still valid, because nothing has
+            // been modified yet.
+            const ThisType  theCopy(1, theData, *m_memoryManager);
+
+            insert(thePosition, theCount, theCopy[0]);
+
+            return;
+        }
+
         const size_type     theTotalSize = size() + theCount;
 
         // Needs to be optimized
@@ -564,6 +578,15 @@ public:
         if (m_size > theSize)
         {
             shrinkToSize(theSize);
+        }
+        else if (isOwnElement(theValue))
+        {
+            // Growing from a value that lives in this vector:
+            // reserve() may free the storage it refers to, so
+            // fill from a copy of it.
+            const ThisType  theCopy(1, theValue, *m_memoryManager);
+
+            resize(theSize, theCopy[0]);
         }
         else if (m_size < theSize)
         {
@@ -875,6 +898,17 @@ private:
         assert(
             (m_data == 0 && m_allocation == 0) ||
             (m_data != 0 && m_allocation != 0));
+    }
+
+    // Does the reference denote one of this vector's own elements?
+    bool
+    isOwnElement(const value_type&  theData) const
+    {
+        const value_type* const     thePointer = &theData;
+
+        return m_size != 0 &&
+               thePointer >= m_data &&
+               thePointer < m_data + m_size;
     }
 
     size_type
